@@ -171,6 +171,14 @@ def native_programs_rv(prop, tier, seed):
     return _programs(prop, tier, seed, 'rv64')
 
 
+@register('native_labels')
+def native_labels(prop, tier, seed):
+    sums, cmd = native_run(['labels', '--seed', str(seed)])
+    return _native_result('native_labels', sums, cmd,
+                          ['driver::Driver::{parsed,checked,compiled,focused,shrunk,linearized}', 'axcut2backend::coder::{compile,assemble}', 'axcut2backend::statements::{switch,create}::code_statement (table / clause labels)',
+                           'fun2core::compile::share (generated definition names)', '<backend>::into_routine::*'])
+
+
 def _emitters(prop, tier, seed, backend):
     sums, cmd = native_run(['emitters', '--backend', backend, '--seed', str(seed)])
     return _native_result('native_emitters/' + backend, sums, cmd, ['<%s>::code::Instructions::*' % backend], backend)
